@@ -245,8 +245,64 @@ func checkRoundTrip(c *RTCase) (vs []Viol, info caseInfo) {
 		}
 	}
 
-	// (c) point lookups
+	// (e) two iterators of ONE reader used alternately, with point lookups in
+	// between: iterator A walks the whole table; every c.Inter entries iterator
+	// B seeks somewhere else and a Get reads a key of another region. What A
+	// yields afterwards must be unaffected (blocks of one reader may be alive
+	// side by side).
 	multi := l != nil && len(l.Blocks) > 1
+	if c.Inter > 0 && c.wants("interleaved", "sst_interleaved") {
+		a := r.NewIterator()
+		a.SeekToFirst()
+		b := r.NewIterator()
+		ti := 0
+		getOK := !multi || ev.Flag("sst_get_multiblock")
+	inter:
+		for i := 0; i < len(rows); i++ {
+			if !a.Valid() {
+				v.add("interleaved:ends_early@"+l.where(i), "walk next to a second iterator: iteration ends before entry %d/%d (key %s)", i, len(rows), short(rows[i].key))
+				break
+			}
+			if kind, msg := diffEntry(read(a), rows[i]); kind != "" {
+				v.add("interleaved:"+kind+"@"+l.where(i), "walk next to a second iterator (every %d entries): at entry %d/%d: %s", c.Inter, i, len(rows), msg)
+				break
+			}
+			if i%c.Inter == c.Inter-1 {
+				if len(targets) > 0 {
+					tg := targets[ti%len(targets)]
+					ti += 7
+					tb := tg.bytes(rows)
+					exp := findKey(rows, tb)
+					ok := b.Seek(tb)
+					if exp < len(rows) {
+						if !ok || !b.Valid() {
+							v.add("interleaved:seek_invalid@"+l.where(exp), "second iterator Seek(%s): returned %v, Valid()=%v; want entry %d", short(tb), ok, b.Valid(), exp)
+							break inter
+						}
+						if kind, msg := diffEntry(read(b), rows[exp]); kind != "" {
+							v.add("interleaved:seek_"+kind+"@"+l.where(exp), "second iterator Seek(%s): %s (want entry %d)", short(tb), msg, exp)
+							break inter
+						}
+					}
+				}
+				if getOK {
+					j := (i*31 + 17) % len(rows)
+					val, err := r.Get(rows[j].key)
+					switch {
+					case err != nil:
+						v.add("interleaved:get_not_found@"+l.where(j), "Get(%s) between iterator steps: %v", short(rows[j].key), err)
+						break inter
+					case (val == nil) != rows[j].tomb || !bytes.Equal(val, rows[j].val):
+						v.add("interleaved:get_value@"+l.where(j), "Get(%s) between iterator steps: value %s, want %s (marker=%v)", short(rows[j].key), short(val), short(rows[j].val), rows[j].tomb)
+						break inter
+					}
+				}
+			}
+			a.Next()
+		}
+	}
+
+	// (c) point lookups
 	switch {
 	case !c.wants("get", "sst_get"):
 	case multi && !ev.Flag("sst_get_multiblock"):
